@@ -42,6 +42,7 @@ type verifNet struct {
 	stopped   bool
 	// label of the "stalled while the frontier holds a contact the lookup would query" assertion
 	staleLabel string
+	alpha      int // when set, the fan-out bound is checked at the moment a query starts
 }
 
 func verifNodeAddr(i int) krpc.NodeAddr {
@@ -73,6 +74,9 @@ func (n *verifNet) doQuery(ctx context.Context, addr krpc.NodeAddr) (res QueryRe
 	n.inflight++
 	if n.inflight > n.maxFlight {
 		n.maxFlight = n.inflight
+	}
+	if n.alpha > 0 {
+		verifAssert(n.inflight <= n.alpha, "C04: never more than Alpha queries are in flight at once")
 	}
 	if i < 0 {
 		n.unknown++
@@ -235,6 +239,7 @@ func (n *verifNet) checkClosest(op *Operation, k int, honest bool) {
 }
 
 func (n *verifNet) run(alpha, k int, seeds []int, honest bool) {
+	n.alpha = alpha
 	op := Start(OperationInput{Target: n.target, Alpha: alpha, K: k, DoQuery: n.doQuery, NodeFilter: n.nodeFilter,
 		DataFilter: func(d any) bool { _, ok := d.(string); return ok }})
 	for _, s := range seeds {
@@ -363,6 +368,40 @@ func VerifTrav_SharedID() {
 	for i := range n.nodes {
 		verifAssert(n.asked[i] == 1, "C03: every learned contact is queried, also when two of them share a node ID")
 	}
+	verifReach("end")
+}
+
+// One address queued under two IDs ahead of other candidates (seed set or one reply naming it twice):
+// the second entry is skipped when it is popped, and that skip must not disturb the fan-out
+// accounting - with Alpha 1..2 and further candidates waiting, never more than Alpha queries are in
+// flight, every address is asked once, and the lookup still ends.
+func VerifTrav_AliasAhead() {
+	const count, k = 4, 4
+	n := verifNewNet(verifTarget, count)
+	alpha := verifChoice(1, 2)
+	n.alpha = alpha
+	op := Start(OperationInput{Target: n.target, Alpha: alpha, K: k, DoQuery: n.doQuery, NodeFilter: n.nodeFilter,
+		DataFilter: func(d any) bool { _, ok := d.(string); return ok }})
+	// node 0 (distance 1) also under an ID at distance 2; nodes 2 and 3 (distances 3, 4) wait behind
+	alias := types.AddrMaybeId{Addr: n.nodes[0].addr.ToNodeAddrPort(), Id: generics.Some(verifID(verifTarget, 2).Int160())}
+	var first []types.AddrMaybeId
+	for _, i := range []int{0, 2, 3} {
+		first = append(first, types.AddrMaybeId{Addr: n.nodes[i].addr.ToNodeAddrPort(), Id: generics.Some(n.nodes[i].id.Int160())})
+		n.learned[i], n.learnedID[i] = true, true
+	}
+	if verifNondetBool() {
+		first = append([]types.AddrMaybeId{alias}, first...)
+	} else {
+		first = append(first, alias)
+	}
+	op.AddNodes(first)
+	<-op.Stalled()
+	n.checkStall(op, k)
+	op.Stop()
+	<-op.Stopped()
+	n.stopped = true
+	n.checkDiscipline(alpha)
+	n.checkClosest(op, k, false)
 	verifReach("end")
 }
 
